@@ -64,6 +64,8 @@ func main() {
 		h.runGolden(*goldenDir)
 	case "bigvalue":
 		h.runBigValue()
+	case "soak":
+		h.runSoak(*seed, *cases)
 	default:
 		log.Fatalf("unknown stream %q", *stream)
 	}
